@@ -17,9 +17,11 @@ import (
 	"testing"
 
 	"github.com/XiaoMi/Gaea/models"
+	"github.com/XiaoMi/Gaea/mysql"
 	"github.com/XiaoMi/Gaea/parser"
 	"github.com/XiaoMi/Gaea/proxy/router"
 	"github.com/XiaoMi/Gaea/proxy/sequence"
+	"github.com/XiaoMi/Gaea/util"
 	kit "github.com/XiaoMi/Gaea/verifkit"
 )
 
@@ -102,7 +104,7 @@ func c04GetLayout(id string) (*c04Layout, error) {
 		}
 	}
 	var rules []*models.Shard
-	for _, t := range []string{"g1", "g2"} {
+	for _, t := range []string{c04T1, c04T2} {
 		rules = append(rules, &models.Shard{DB: l.DB, Table: t, Type: "global", Locations: l.Locs, Slices: l.Slices, Databases: dbCfg})
 	}
 	ns, err := plNamespace(l.Slices, rules, nil, []string{l.DB})
@@ -144,11 +146,32 @@ func c04AllLayouts() []string {
 	return out
 }
 
+const (
+	c04T1 = "gtab1"
+	c04T2 = "gtab2"
+)
+
+// c04Name spells an identifier: lower | upper | mixed | bq (back-quoted) | bqupper
+func c04Name(style, id string) string {
+	switch style {
+	case "upper":
+		return strings.ToUpper(id)
+	case "mixed":
+		return strings.ToUpper(id[:2]) + id[2:]
+	case "bq":
+		return "`" + id + "`"
+	case "bqupper":
+		return "`" + strings.ToUpper(id) + "`"
+	}
+	return id
+}
+
 type c04Case struct {
 	Layout string   `json:"layout"`
-	Kind   string   `json:"kind"`  // ins-values | ins-multi | ins-set | replace | update | delete | select | select-join | select-comma
-	Qual   string   `json:"qual"`  // bare | tbl | db | alias | dbalias | colq (insert: qualified column list)
-	Where  string   `json:"where"` // none | eq | in | between
+	Kind   string   `json:"kind"`           // ins-values | ins-multi | ins-set | replace | update | delete | select | select-join | select-comma
+	Qual   string   `json:"qual"`           // bare | tbl | db | alias | dbalias | colq (insert: qualified column list)
+	Where  string   `json:"where"`          // none | eq | in | between
+	Name   string   `json:"name,omitempty"` // spelling of table names: "" (lower) | upper | mixed | bq | bqupper
 	Extra  []string `json:"extra,omitempty"`
 	SQL    string   `json:"sql,omitempty"`
 }
@@ -167,22 +190,28 @@ func c04IsWrite(kind string) bool {
 }
 
 // c04Ref spells a table reference and the column prefix for it.
-func c04Ref(l *c04Layout, qual, tbl, alias string) (ref, q string) {
+func c04Ref(l *c04Layout, name, qual, tbl, alias string) (ref, q string) {
+	tbl = c04Name(name, tbl)
+	db := l.DB
+	if name == "bq" || name == "bqupper" {
+		db = "`" + l.DB + "`" // the database name keeps its case: it is matched case-sensitively everywhere
+	}
 	switch qual {
 	case "tbl":
 		return tbl, tbl + "."
 	case "db", "colq":
-		return l.DB + "." + tbl, l.DB + "." + tbl + "."
+		return db + "." + tbl, db + "." + tbl + "."
 	case "alias":
 		return tbl + " AS " + alias, alias + "."
 	case "dbalias":
-		return l.DB + "." + tbl + " AS " + alias, alias + "."
+		return db + "." + tbl + " AS " + alias, alias + "."
 	}
 	return tbl, ""
 }
 
 func c04SQL(l *c04Layout, cs *c04Case) string {
-	ref, q := c04Ref(l, cs.Qual, "g1", "a")
+	ref, q := c04Ref(l, cs.Name, cs.Qual, c04T1, "a")
+	t1, t2 := c04Name(cs.Name, c04T1), c04Name(cs.Name, c04T2)
 	where := ""
 	switch cs.Where {
 	case "eq":
@@ -210,12 +239,12 @@ func c04SQL(l *c04Layout, cs *c04Case) string {
 			cq = q
 		}
 		if cs.Qual == "alias" || cs.Qual == "dbalias" || cs.Qual == "tbl" {
-			iref, _ = c04Ref(l, "bare", "g1", "")
+			iref, _ = c04Ref(l, cs.Name, "bare", c04T1, "")
 			if cs.Qual == "dbalias" {
-				iref, _ = c04Ref(l, "db", "g1", "")
+				iref, _ = c04Ref(l, cs.Name, "db", c04T1, "")
 			}
 			if cs.Qual == "tbl" {
-				cq = "g1."
+				cq = t1 + "."
 			}
 		}
 		vals := "(1, 'a')"
@@ -230,9 +259,9 @@ func c04SQL(l *c04Layout, cs *c04Case) string {
 	case "ins-set":
 		iref := ref
 		if cs.Qual == "alias" || cs.Qual == "tbl" {
-			iref = "g1"
+			iref = t1
 		} else if cs.Qual == "dbalias" || cs.Qual == "colq" {
-			iref = l.DB + ".g1"
+			iref, _ = c04Ref(l, cs.Name, "db", c04T1, "")
 		}
 		return "INSERT INTO " + iref + " SET gid = 1, gname = 'a'"
 	case "update":
@@ -246,11 +275,11 @@ func c04SQL(l *c04Layout, cs *c04Case) string {
 		}
 		return "SELECT " + fields + " FROM " + ref + where + tail
 	case "select-join", "select-comma":
-		ref2, q2 := c04Ref(l, cs.Qual, "g2", "b")
+		ref2, q2 := c04Ref(l, cs.Name, cs.Qual, c04T2, "b")
 		if cs.Qual == "bare" {
-			q, q2 = "g1.", "g2."
-			where = strings.Replace(where, " gid", " g1.gid", 1)
-			tail = strings.Replace(tail, " gid", " g1.gid", 1)
+			q, q2 = t1+".", t2+"."
+			where = strings.Replace(where, " gid", " "+t1+".gid", 1)
+			tail = strings.Replace(tail, " gid", " "+t1+".gid", 1)
 		}
 		fields := "*"
 		if cs.has("fields") {
@@ -275,6 +304,82 @@ type c04Result struct {
 	GenBug   string
 	Copy     string // the copy a read went to
 	Sent     []plSent
+	Fast     bool // taken by the session's token pre-check (no parser)
+	Unshard  bool // BuildPlan returned an UnshardPlan
+}
+
+// c04SessionPreCheck mirrors proxy/server.(*SessionExecutor).preBuildUnshardPlan
+// (executor_handle.go), which decides from the tokens alone whether a statement skips the
+// parser and is sent verbatim to the default slice. The decision functions it combines
+// (CheckUnshardBase/Insert/Update, HasShardTableToken, PreCreateUnshardPlan) are the real ones
+// of this package; only the short combination is repeated here because proxy/server cannot be
+// imported from proxy/plan. Not mirrored: the comment-statement and last_insert_id() shortcuts
+// (no generated statement starts with a comment or has a 14..16 byte second token) and the
+// "no shard rules at all" branch (every layout has rules).
+func c04SessionPreCheck(l *c04Layout, db, sql string) (Plan, bool) {
+	rt := l.cfg.RT
+	phyDBs := c04PhyDBs(l)
+	tokens := parser.Tokenize(sql)
+	if len(tokens) == 0 {
+		return nil, false
+	}
+	ruleDB := db
+	isUnshardPlan := true
+	tokenID, ok := mysql.ParseTokenMap[strings.ToLower(tokens[0])]
+	if !ok {
+		return nil, false
+	}
+	switch tokenID {
+	case mysql.TkIdSelect, mysql.TkIdDelete:
+		ruleDB, isUnshardPlan = CheckUnshardBase(tokenID, tokens, rt, db)
+	case mysql.TkIdReplace, mysql.TkIdInsert:
+		ruleDB, isUnshardPlan = CheckUnshardInsert(tokens, rt, db)
+	case mysql.TkIdUpdate:
+		ruleDB, isUnshardPlan = CheckUnshardUpdate(tokens, rt, db)
+	default:
+		return nil, false
+	}
+	if isUnshardPlan && HasShardTableToken(tokens, rt) {
+		isUnshardPlan = false
+	}
+	if isUnshardPlan {
+		if p, err := PreCreateUnshardPlan(sql, phyDBs, ruleDB); err == nil {
+			return p, true
+		}
+	}
+	return nil, false
+}
+
+// c04PhyDBs is Namespace.GetPhysicalDBs() of a namespace without default_phy_dbs: identity on allowed dbs.
+func c04PhyDBs(l *c04Layout) map[string]string {
+	m := map[string]string{}
+	for db := range l.cfg.NS.AllowedDBS {
+		m[db] = db
+	}
+	return m
+}
+
+// c04ExecUnshard runs the real UnshardPlan.ExecuteIn with the namespace's default slice in the
+// request context and maps the database like SessionExecutor.ExecuteSQL (GetDefaultPhyDB).
+func c04ExecUnshard(l *c04Layout, p Plan) ([]plSent, string) {
+	x := &plExec{}
+	ctx := util.NewRequestContext()
+	ctx.SetDefaultSlice(l.cfg.NS.DefaultSlice)
+	if _, err := p.ExecuteIn(ctx, x); err != nil {
+		return nil, "exec_error"
+	}
+	phy := c04PhyDBs(l)
+	for i := range x.Sent {
+		if x.Sent[i].DB == "" {
+			continue
+		}
+		d, ok := phy[x.Sent[i].DB]
+		if !ok {
+			return nil, "invalid_db"
+		}
+		x.Sent[i].DB = d
+	}
+	return x.Sent, ""
 }
 
 func c04Run(cs *c04Case) (res c04Result) {
@@ -285,23 +390,43 @@ func c04Run(cs *c04Case) (res c04Result) {
 	}
 	sql := c04SQL(l, cs)
 	cs.SQL = sql
-	pl := plBuild(l.cfg, l.DB, sql)
-	switch {
-	case pl.ParseErr != "":
-		res.GenBug = "generated text does not parse: " + pl.ParseErr + " :: " + sql
-		return
-	case pl.Panic != "":
-		res.Rejected = "panic"
-		return
-	case pl.Err != "":
-		res.Rejected = "error"
-		return
+	// the way a session obtains its plan (proxy/server getPlan): token pre-check first, parser + BuildPlan otherwise
+	var sent []plSent
+	if fp, fast := c04SessionPreCheck(l, l.DB, sql); fast {
+		res.Fast = true
+		var rej string
+		if sent, rej = c04ExecUnshard(l, fp); rej != "" {
+			res.Rejected = rej
+			return
+		}
+	} else {
+		pl := plBuild(l.cfg, l.DB, sql)
+		switch {
+		case pl.ParseErr != "":
+			res.GenBug = "generated text does not parse: " + pl.ParseErr + " :: " + sql
+			return
+		case pl.Panic != "":
+			res.Rejected = "panic"
+			return
+		case pl.Err != "":
+			res.Rejected = "error"
+			return
+		}
+		if up, ok := pl.Plan.(*UnshardPlan); ok {
+			// the planner itself did not recognise the global table
+			res.Unshard = true
+			var rej string
+			if sent, rej = c04ExecUnshard(l, up); rej != "" {
+				res.Rejected = rej
+				return
+			}
+		} else if pl.SQLs == nil {
+			res.GenBug = fmt.Sprintf("plan %T carries no statement map", pl.Plan)
+			return
+		} else {
+			sent = plFlatten(pl.SQLs)
+		}
 	}
-	if pl.SQLs == nil {
-		res.GenBug = fmt.Sprintf("plan %T carries no statement map", pl.Plan)
-		return
-	}
-	sent := plFlatten(pl.SQLs)
 	res.Sent = sent
 	count := map[string]int{}
 	for _, s := range sent {
@@ -393,6 +518,11 @@ func c04Minimize(cs *c04Case, clause string) (*c04Case, string) {
 				cands = append(cands, &y)
 			}
 		}
+		if cur.Name != "" {
+			x := cur
+			x.Name = ""
+			cands = append(cands, &x)
+		}
 		if cur.Qual != "bare" {
 			x := cur
 			x.Qual = "bare"
@@ -432,6 +562,14 @@ func c04Minimize(cs *c04Case, clause string) (*c04Case, string) {
 	}
 	if cur.Where != "none" {
 		parts = append(parts, "where="+cur.Where)
+	}
+	if cur.Name != "" {
+		parts = append(parts, "name="+cur.Name)
+	}
+	if r := c04Run(&cur); r.Fast {
+		parts = append(parts, "via-token-precheck")
+	} else if r.Unshard {
+		parts = append(parts, "planned-as-unshard")
 	}
 	ex := append([]string(nil), cur.Extra...)
 	sort.Strings(ex)
@@ -490,6 +628,13 @@ func TestVerif_C04(t *testing.T) {
 				return
 			}
 			rec.Count("accepted", 1)
+			if res.Fast {
+				rec.Count("taken_by_token_precheck", 1)
+			} else if res.Unshard {
+				rec.Count("planned_as_unshard", 1)
+			} else {
+				rec.Count("planned_by_buildplan", 1)
+			}
 			if c04IsWrite(cs.Kind) {
 				rec.Count("writes_checked", 1)
 			} else {
@@ -504,7 +649,7 @@ func TestVerif_C04(t *testing.T) {
 			if len(l.Copies) > 1 && i == 0 {
 				ex := append([]string(nil), cs.Extra...)
 				sort.Strings(ex)
-				rec.Nontrivial(fmt.Sprintf("%s|%d|%s|%s|%s|%s", l.class(), len(l.Locs), cs.Kind, cs.Qual, cs.Where, strings.Join(ex, ",")))
+				rec.Nontrivial(fmt.Sprintf("%s|%d|%s|%s|%s|%s|%s", l.class(), len(l.Locs), cs.Kind, cs.Qual, cs.Where, strings.Join(ex, ","), cs.Name))
 				rec.Sample(map[string]interface{}{"layout": cs.Layout, "sql": cs.SQL, "sent": res.Sent, "copies": c04Keys(l.Copies)})
 			}
 			if res.Clause != "" {
@@ -563,6 +708,12 @@ func TestVerif_C04(t *testing.T) {
 						}
 					}
 					feats = append(feats, c04Case{Kind: k, Qual: q, Where: w, Extra: ex})
+					if mask == 0 || mask == 1<<uint(len(exs))-1 {
+						// table-name spellings: upper, mixed case, back-quoted
+						for _, nm := range []string{"upper", "mixed", "bq", "bqupper"} {
+							feats = append(feats, c04Case{Kind: k, Qual: q, Where: w, Extra: ex, Name: nm})
+						}
+					}
 				}
 			}
 		}
@@ -575,7 +726,7 @@ func TestVerif_C04(t *testing.T) {
 				cs := f
 				cs.Layout = lid
 				n := 1
-				if !c04IsWrite(cs.Kind) && len(cs.Extra) == 0 {
+				if !c04IsWrite(cs.Kind) && len(cs.Extra) == 0 && cs.Name == "" {
 					n = reps
 				}
 				runOne(&cs, n)
